@@ -95,6 +95,7 @@ type Call struct {
 	Names  []string
 	DAG    [][]string
 	UseTag bool
+	PassNames []string // the slice object handed to the library (a caller passing its own variable again and again shares one object between calls); Names is what it is meant to hold
 	HasOptFn bool // the request injects the function value ofn
 	HasOpt bool
 	PresetTag  bool // W1: the call reuses the previous call's Stag object as it was left
@@ -262,6 +263,13 @@ func (c *Call) finish(err error, res map[string]interface{}, panicked bool, pv s
 	c.mu.Unlock()
 }
 
+func (c *Call) passNames() []string {
+	if c.PassNames != nil {
+		return c.PassNames
+	}
+	return c.Names
+}
+
 func stagOf(c *Call) *engine.Stag {
 	if c.Tag == nil {
 		c.Tag = &engine.Stag{}
@@ -307,23 +315,23 @@ func InvokeEngine(sc *Scenario, g *engine.Gengine, rb *builder.RuleBuilder, c *C
 		case MMixStopTag:
 			err = g.ExecuteMixModelWithStopTagDirect(rb, stagOf(c))
 		case MSelected:
-			err = g.ExecuteSelectedRules(rb, c.Names)
+			err = g.ExecuteSelectedRules(rb, c.passNames())
 		case MSelectedCtl:
-			err = g.ExecuteSelectedRulesWithControl(rb, c.B, c.Names)
+			err = g.ExecuteSelectedRulesWithControl(rb, c.B, c.passNames())
 		case MSelectedCtlGiven:
-			err = g.ExecuteSelectedRulesWithControlAsGivenSortedName(rb, c.B, c.Names)
+			err = g.ExecuteSelectedRulesWithControlAsGivenSortedName(rb, c.B, c.passNames())
 		case MSelectedCtlStop:
-			err = g.ExecuteSelectedRulesWithControlAndStopTag(rb, c.B, stagOf(c), c.Names)
+			err = g.ExecuteSelectedRulesWithControlAndStopTag(rb, c.B, stagOf(c), c.passNames())
 		case MSelectedCtlStopGiven:
-			err = g.ExecuteSelectedRulesWithControlAndStopTagAsGivenSortedName(rb, c.B, stagOf(c), c.Names)
+			err = g.ExecuteSelectedRulesWithControlAndStopTagAsGivenSortedName(rb, c.B, stagOf(c), c.passNames())
 		case MSelectedConc:
-			err = g.ExecuteSelectedRulesConcurrent(rb, c.Names)
+			err = g.ExecuteSelectedRulesConcurrent(rb, c.passNames())
 		case MSelectedMix:
-			err = g.ExecuteSelectedRulesMixModel(rb, c.Names)
+			err = g.ExecuteSelectedRulesMixModel(rb, c.passNames())
 		case MInverseMix:
 			err = g.ExecuteInverseMixModel(rb)
 		case MSelectedInverseMix:
-			err = g.ExecuteSelectedRulesInverseMixModel(rb, c.Names)
+			err = g.ExecuteSelectedRulesInverseMixModel(rb, c.passNames())
 		case MNSortMConc:
 			err = g.ExecuteNSortMConcurrent(c.N, c.M, rb, c.B)
 		case MNConcMSort:
@@ -331,11 +339,11 @@ func InvokeEngine(sc *Scenario, g *engine.Gengine, rb *builder.RuleBuilder, c *C
 		case MNConcMConc:
 			err = g.ExecuteNConcurrentMConcurrent(c.N, c.M, rb, c.B)
 		case MSelNSortMConc:
-			err = g.ExecuteSelectedNSortMConcurrent(c.N, c.M, rb, c.B, c.Names)
+			err = g.ExecuteSelectedNSortMConcurrent(c.N, c.M, rb, c.B, c.passNames())
 		case MSelNConcMSort:
-			err = g.ExecuteSelectedNConcurrentMSort(c.N, c.M, rb, c.B, c.Names)
+			err = g.ExecuteSelectedNConcurrentMSort(c.N, c.M, rb, c.B, c.passNames())
 		case MSelNConcMConc:
-			err = g.ExecuteSelectedNConcurrentMConcurrent(c.N, c.M, rb, c.B, c.Names)
+			err = g.ExecuteSelectedNConcurrentMConcurrent(c.N, c.M, rb, c.B, c.passNames())
 		case MDAG:
 			err = g.ExecuteDAGModel(rb, c.DAG)
 		default:
@@ -382,23 +390,23 @@ func InvokePool(sc *Scenario, p *engine.GenginePool, c *Call) {
 		case MMixStopTag:
 			err, res = p.ExecuteMixModelWithStopTagDirect(data, stagOf(c))
 		case MSelected:
-			err, res = p.ExecuteSelectedRules(data, c.Names)
+			err, res = p.ExecuteSelectedRules(data, c.passNames())
 		case MSelectedCtl:
-			err, res = p.ExecuteSelectedRulesWithControl(data, c.B, c.Names)
+			err, res = p.ExecuteSelectedRulesWithControl(data, c.B, c.passNames())
 		case MSelectedCtlGiven:
-			err, res = p.ExecuteSelectedRulesWithControlAsGivenSortedName(data, c.B, c.Names)
+			err, res = p.ExecuteSelectedRulesWithControlAsGivenSortedName(data, c.B, c.passNames())
 		case MSelectedCtlStop:
-			err, res = p.ExecuteSelectedRulesWithControlAndStopTag(data, c.B, stagOf(c), c.Names)
+			err, res = p.ExecuteSelectedRulesWithControlAndStopTag(data, c.B, stagOf(c), c.passNames())
 		case MSelectedCtlStopGiven:
-			err, res = p.ExecuteSelectedRulesWithControlAndStopTagAsGivenSortedName(data, c.B, stagOf(c), c.Names)
+			err, res = p.ExecuteSelectedRulesWithControlAndStopTagAsGivenSortedName(data, c.B, stagOf(c), c.passNames())
 		case MSelectedConc:
-			err, res = p.ExecuteSelectedRulesConcurrent(data, c.Names)
+			err, res = p.ExecuteSelectedRulesConcurrent(data, c.passNames())
 		case MSelectedMix:
-			err, res = p.ExecuteSelectedRulesMixModel(data, c.Names)
+			err, res = p.ExecuteSelectedRulesMixModel(data, c.passNames())
 		case MInverseMix:
 			err, res = p.ExecuteInverseMixModel(data)
 		case MSelectedInverseMix:
-			err, res = p.ExecuteSelectedRulesInverseMixModel(data, c.Names)
+			err, res = p.ExecuteSelectedRulesInverseMixModel(data, c.passNames())
 		case MNSortMConc:
 			err, res = p.ExecuteNSortMConcurrent(c.N, c.M, c.B, data)
 		case MNConcMSort:
@@ -406,11 +414,11 @@ func InvokePool(sc *Scenario, p *engine.GenginePool, c *Call) {
 		case MNConcMConc:
 			err, res = p.ExecuteNConcurrentMConcurrent(c.N, c.M, c.B, data)
 		case MSelNSortMConc:
-			err, res = p.ExecuteSelectedNSortMConcurrent(c.N, c.M, c.B, c.Names, data)
+			err, res = p.ExecuteSelectedNSortMConcurrent(c.N, c.M, c.B, c.passNames(), data)
 		case MSelNConcMSort:
-			err, res = p.ExecuteSelectedNConcurrentMSort(c.N, c.M, c.B, c.Names, data)
+			err, res = p.ExecuteSelectedNConcurrentMSort(c.N, c.M, c.B, c.passNames(), data)
 		case MSelNConcMConc:
-			err, res = p.ExecuteSelectedNConcurrentMConcurrent(c.N, c.M, c.B, c.Names, data)
+			err, res = p.ExecuteSelectedNConcurrentMConcurrent(c.N, c.M, c.B, c.passNames(), data)
 		case MDAG:
 			err, res = p.ExecuteDAGModel(c.DAG, data)
 		case MPoolEM:
@@ -422,7 +430,7 @@ func InvokePool(sc *Scenario, p *engine.GenginePool, c *Call) {
 		case MPoolEMMulti:
 			err, res = p.ExecuteRulesWithMultiInputWithSpecifiedEM(data)
 		case MPoolSelEM:
-			err, res = p.ExecuteSelectedWithSpecifiedEM(data, c.Names)
+			err, res = p.ExecuteSelectedWithSpecifiedEM(data, c.passNames())
 		default:
 			panic("harness: unknown method")
 		}
